@@ -1,4 +1,5 @@
 import FlVerif.Lemmas.PyTables
+import FlVerif.Lemmas.CodeRepr
 
 /-! # C15 — Python export reconstructs an identical engine
 
@@ -34,6 +35,19 @@ theorem dropped_eq_default (env : Env) (d v : Val) (h : dropHolds env (some d) .
   eqDefaultVal_eq d v (by simpa [dropHolds] using h)
 
 /-! ## `construction_arguments` against Python's call binding -/
+
+/-- **Tie A (code → model).**  `Gen.Code.construction_arguments` is regenerated from the source of
+    `Representation.construction_arguments` on every run (`fv/pylean.py`; `sig` = the parameters of the constructor
+    signature including `self`, `noInit` = the class has no constructor, `fields name` = the text `self.repr` gives
+    for the field).  It raises `ValueError` exactly when `emit` fails on the signature without `self`, and otherwise
+    returns the arguments of `emit`, `name=value` for a keyword argument and `value` for a positional one. -/
+theorem code_constructionArguments (noInit : Bool) (sig : List Param) (fields : String → Option String)
+    (positional : Bool) :
+    match emit fields positional (if noInit then [] else notSelf sig) with
+    | none => Gen.Code.construction_arguments.run noInit sig fields positional {} = .error .value
+    | some args => ∃ σ, Gen.Code.construction_arguments.run noInit sig fields positional {} = .ok σ ∧
+        σ.ret = some (args.map argText) :=
+  Op.PyRepr.code_constructionArguments noInit sig fields positional
 
 /-- binding the emitted arguments (positional prefix, then keywords) against the signature gives, for every
     stored parameter, the emitted field and otherwise the constructor default -/
